@@ -19,7 +19,7 @@ from lib import impl
 from lib.core import cbool, cbytes, clist, cpair, vL, vN, vset
 
 PROPERTY = "C12"
-GEN: list = []
+GEN: list = ["status"]  # translator/statusunit.py -> Gen/StatusPy.v, tied by Proofs/StatusTie.v
 RULE = (
     "worlds: 6 file objects, 2-4 random directory objects over them (shared files, duplicate entries, "
     "an empty directory), absent file/dir ids. status/compare: random store contents (protected and "
